@@ -36,7 +36,10 @@ def setup(S, cls):
     x = T.atom("x", array=True)
     env.declare(x, AD.AT([AD.axis(n_in), AD.axis(d)]))
 
+    applications = []
+
     def fun(itp, a, kw, site):
+        applications.append((a[0], dict(kw), site))
         o = T.mk("call", (A("fun"), a[0]), kw, meta={"array": True})
         ta = env.of(a[0])
         if ta is not None and ta.rank == 2 and AD.same_size(ta.axes[0].size, n_in) and AD.same_size(ta.axes[1].size, d):
@@ -44,7 +47,9 @@ def setup(S, cls):
         return o
 
     h = it.instantiate(it.class_value(f"{JAC}.{cls}"), [], {"num_probes": A("num_probes")} if "monte" in cls else {}, "<harness>")
-    return it, env, h, x, HarnessFn("fun", fun), (n_in, n_out, d)
+    hf = HarnessFn("fun", fun)
+    hf.applications = applications
+    return it, env, h, x, hf, (n_in, n_out, d)
 
 
 def shape_of(env, v):
@@ -70,12 +75,19 @@ def run(chk, S: Session):
             it, env, h, x, fun, (n_in, n_out, d) = setup(S, cls)
             state = A("key") if "monte" in cls else A("state")
             cfg = {"handler": cls, "method": meth}
+            kw_t = A("kw_t")
             try:
-                out = call(it, method(it, h, meth), fun, x, state)
+                out = call(it, method(it, h, meth), fun, x, state, t=kw_t)
             except AnalysisError as e:
                 r1.unknown(f"{cls}.{meth}", str(e), JAC, cfg)
                 continue
             S.absorb(it)
+            # the function that is differentiated is the function that is evaluated: every application of `fun` -- inside jacfwd / linearize / vjp as well --
+            # carries the caller's keyword arguments (the solver passes the time this way)
+            apps = fun.applications  # every application the interpreter performed, inside jacfwd / linearize / vjp / eval_shape as well
+            bare = [(a_, k_, s_) for a_, k_, s_ in apps if k_.get("t") is not kw_t]
+            r2.require(bool(apps) and not bare, f"{cls}.{meth} keyword arguments reach every evaluation", f"{len(apps)} application(s) of fun, all with the caller's keyword arguments",
+                       f"{len(bare)} of {len(apps)} application(s) of fun without the caller's keyword arguments (first at {bare[0][2] if bare else '-'}): the Jacobian is taken of a different function than the one evaluated", bare[0][2] if bare else JAC, cfg)
             if not (isinstance(out, (tuple, list)) and len(out) == 3):
                 r1.fail(f"{cls}.{meth}", f"does not return (fx, J, state): {T.show(out, 2)}", JAC, cfg)
                 continue
